@@ -406,8 +406,12 @@ func runCheck(cmd, prop, tier string, seed int, only, dump string, verbose bool)
 				}
 			}
 		}
-		for _, e := range genErrs {
-			fmt.Println("  ERROR:", e)
+		for i, e := range genErrs {
+			if i >= 15 {
+				fmt.Printf("  ... %d more errors\n", len(genErrs)-i)
+				break
+			}
+			fmt.Println("  ERROR:", truncate(strings.ReplaceAll(e, "\n", " "), 300))
 		}
 		return 0
 	}
